@@ -26,6 +26,7 @@
 """SCC caption paragraph"""
 
 import copy
+from fractions import Fraction
 import logging
 import math
 from math import ceil
@@ -359,8 +360,8 @@ class SccCaptionParagraph:
           begin = caption_text.get_begin().to_temporal_offset()
 
           if self.get_caption_style() is SccCaptionStyle.PaintOn:
-            # Compute paragraph-relative begin time
-            begin -= self._begin.to_temporal_offset()
+            # Compute paragraph-relative begin time: text painted before the paragraph begins is shown from its beginning
+            begin = max(begin - self._begin.to_temporal_offset(), Fraction(0))
 
           span.set_begin(begin)
 
